@@ -32,7 +32,10 @@ def main():
     sh(["git", "-C", "/repo", "worktree", "add", "-q", "--detach", wt, "HEAD"])
     meta = dict(seed=sid, property=prop, repo_head=sh("git -C /repo rev-parse --short HEAD")[1].strip())
     try:
-        patch = os.path.join(out, "patch.diff")
+        patch = os.path.join(out, "patch_rebased.diff")       # the same change carried over the later repairs of /repo, where patch.diff no longer applies
+        if not os.path.exists(patch):
+            patch = os.path.join(out, "patch.diff")
+        meta["patch"] = os.path.basename(patch)
         demo = os.path.join(out, "demo.py")
         rc0, o0 = sh([PY, demo], cwd=wt, env={"PYTHONPATH": wt})
         meta["demo_without_change"] = rc0
